@@ -168,7 +168,7 @@ func c12MustFail(kind string, tree any, m hx.TreeMutation) (bool, string) {
 		if nk == "struct" {
 			return true, "unknown member at a struct level"
 		}
-	case "rename":
+	case "rename", "recase":
 		if parentKind == "struct" {
 			return true, "unknown member at a struct level (renamed)"
 		}
@@ -423,11 +423,11 @@ func c12Corrupt(c c12Case, r *hx.Rec, dir string, fileTree map[string]any, force
 		}
 		member := strings.TrimPrefix(m.Shape, "/")
 		switch {
-		case isDSSE && (member == "payload" || member == "signatures") && (m.Kind == "drop" || m.Kind == "null" || m.Kind == "rename"):
+		case isDSSE && (member == "payload" || member == "signatures") && (m.Kind == "drop" || m.Kind == "null" || m.Kind == "rename" || m.Kind == "recase"):
 			mustFail, why = true, "absent or null "+member
-		case isDSSE && member == "payloadType" && (m.Kind == "tweak" || m.Kind == "empty" || m.Kind == "retype" || m.Kind == "drop" || m.Kind == "null" || m.Kind == "rename"):
+		case isDSSE && member == "payloadType" && (m.Kind == "tweak" || m.Kind == "empty" || m.Kind == "retype" || m.Kind == "drop" || m.Kind == "null" || m.Kind == "rename" || m.Kind == "recase"):
 			mustFail, why = true, "payload type other than in-toto's"
-		case !isDSSE && (member == "signed" || member == "signatures") && (m.Kind == "drop" || m.Kind == "null" || m.Kind == "rename"):
+		case !isDSSE && (member == "signed" || member == "signatures") && (m.Kind == "drop" || m.Kind == "null" || m.Kind == "rename" || m.Kind == "recase"):
 			mustFail, why = true, "absent or null "+member
 		case (member == "signed" || member == "signatures" || member == "payload") && m.Kind == "retype":
 			mustFail, why = true, "wrong JSON type for "+member
